@@ -27,7 +27,9 @@ LEVEL_TEXT = ('(a) Complete enumeration inside Coq (vm_compute, 27 tables x 15^3
               '(C17_ids, C17_tables_match_ncbi, C17_ttinv_sound, C17_codes_are_iupac); tables are regenerated from /repo on every run. '
               '(b) The generator convert.py is modelled line by line in Gallina (C17_Convert: filter_line, the parsing loop with its '
               'NameError/ValueError/IndexError/KeyError behaviour, generate_gc with the three loops over the alphabet and the growing tt); '
-              'C17_convert_reproduces_json: the model run inside Coq on the regenerated text of gc.prt and on sugar.data.CODES reproduces '
+              'C17_convert_whole: the whole script run inside Coq on the regenerated text of gc.prt with sugar.data.CODES raises nothing and yields '
+              'the keys of gc.json in order and under every key the table of gc.json (unbounded pipeline lemma convert_with_emitted + '
+              'the per-table finite theorems); C17_convert_reproduces_json: the model run inside Coq on the regenerated text of gc.prt and on sugar.data.CODES reproduces '
               'every table of gc.json (27 generated finite theorems G_gcconv_<id>.conv_matches_json). '
               '(c) Unbounded, for ANY ncbieaa/sncbieaa lines (any base table) and any alphabet whose expansions are base codons: '
               'C17_generate_gc_spec (no exception; tt answers base entry / common amino acid of all expansions / nothing), '
